@@ -4,10 +4,11 @@
      C18-trie-removed-parked : get / put / rm (or another iterator) reaches a key that was removed while an
                                iterator is parked on it
      C18-trie-split-parked   : an insertion splits the node an iterator is parked on (guard_split)
+     C18-trie-split-prefix-root : an insertion splits the root node of an open prefix iterator (guard_split_root)
    No universally quantified iterator theorem is proved for the trie yet (C18 for the trie is PARTIAL): inside
    the guards the claims of C18 are checked on generated interleavings only (correspondence + monitor + ASan). *)
 From Coq Require Import List ZArith.
-Require Import Verif.gen.Consts_trie Verif.MapTrieModel Verif.MapTrieSpec Verif.MapTrieRefuted.
+Require Import Verif.gen.Consts_trie Verif.MapTrieModel Verif.MapTrieSpec Verif.MapTrieGuards Verif.MapTrieRefuted.
 Import ListNotations.
 
 (* a removed-but-parked key is still returned by get, and a put on it is lost when the iterator moves on *)
@@ -33,3 +34,13 @@ Theorem C18T_dictionary_after_iterators_refuted :
               (OPut kabd 2) = false.
 Proof. exact split_parked_refuted. Qed.
 Print Assumptions C18T_dictionary_after_iterators_refuted.
+
+(* an insertion that splits the root node of an open prefix iterator above the end of the prefix makes the
+   iterator return a key without the prefix ("abx" for prefix "abc") *)
+Theorem C18T_prefix_restriction_under_insertion_refuted :
+  outs_of true w_split_root = [RUnit; RUnit; RUnit; RKV (Some (Some [97;98;99;100], Some 1)); RUnit;
+                               RKV (Some (Some [97;98;99;101], Some 2)); RKV (Some (Some [97;98;120], Some 3)); RKV None] /\
+  guard_split_root (match snd (run true trie_init (firstn 4 w_split_root)) with Ok t => t | Err _ => trie_init end)
+                   (OPut [97;98;120] 3) = false.
+Proof. exact split_prefix_root_refuted. Qed.
+Print Assumptions C18T_prefix_restriction_under_insertion_refuted.
